@@ -72,6 +72,47 @@ def loop_cancel_items(ctx):
     return f
 
 
+def cli_interrupt_part(ctx):
+    """the real command-line program (cmd/arcaflow/main.go, built with the scripted deployer) is sent an interrupt, as a
+    terminal would on ctrl-C, while its only step executes: the run is cancelled, the program ends within the bound with
+    the "workflow failed" exit code (or, if the step still finishes during the grace period, with its output)"""
+    import os
+    import re
+    import vlib
+    try:
+        cli = vlib.build_cli(ctx.work)
+    except RuntimeError as e:
+        ctx.inconclusive(str(e)[-400:])
+        return
+    n = 0
+    for k, (beh, at, want) in enumerate([('hang-reacts', 0.4, {3}), ('hang-ignores', 0.4, {3}), ('finishes-in-grace', 0.2, {0, 3}), ('no-interrupt', None, {0})]):
+        base = os.path.join(ctx.work, 'cliint%d' % k)
+        os.makedirs(base)
+        wf = {'steps': {'a': {'kind': 'plugin', 'pstep': 'work', 'fields': {'input': tmap({'id': lit('a')}), 'closure_wait_timeout': lit(150)}}},
+              'outputs': {'success': tmap({'v': ref('steps.a.outputs.success.tok')})}}
+        open(os.path.join(base, 'workflow.yaml'), 'w').write(vlib.render_workflow(wf))
+        open(os.path.join(base, 'config.yaml'), 'w').write(vlib.CLI_CONFIG)
+        ex = {'hang-reacts': {'hang': True}, 'hang-ignores': {'hang': True, 'on_cancel': 'ignore'},
+              'finishes-in-grace': {'out': 'success', 'delay_ms': 700, 'on_cancel': 'ignore'}, 'no-interrupt': {'out': 'success', 'delay_ms': 50}}[beh]
+        code, so, se, secs = vlib.run_cli(cli, base, {'a': {'exec': ex}}, ['-context', base, '-workflow', 'workflow.yaml', '-config', 'config.yaml'],
+                                          timeout=30, sigint_after=at)
+        n += 1
+        rp = {'kind': 'cli-scenario', 'how': 'verifcli + SIGINT after %s s, step behaviour %s' % (at, beh)}
+        bound = (at or 0) + (GRACE_MS + 150 + MARGIN_MS) / 1000.0
+        if code == 124:
+            ctx.add('C06', 'cli-did-not-end-after-interrupt', beh, rp)
+        elif 'panic:' in se and 'go.flow.arcalot.io/engine' in se:
+            ctx.add('C07', 'process-crashed-during-run', se[se.find('panic:'):][:160], rp)
+        else:
+            if code not in want:
+                ctx.add('C06', 'cli-exit-code-after-interrupt', '%s: exit %s, expected one of %s' % (beh, code, sorted(want)), rp)
+            if secs > bound:
+                ctx.add('C06', 'return-later-than-grace-plus-closure-timeouts', 'cli %s: %.1f s > %.1f s' % (beh, secs, bound), rp)
+            if code == 3 and re.search(r'^output_id:', so, re.M):
+                ctx.add('C06', 'cli-printed-an-output-although-the-run-failed', beh, rp)
+    ctx.cov(cli_interrupt_cases=n)
+
+
 def run(ctx):
     prof = dict(max_steps=3, p_tag=0.0)
     items, findings, stats = family.run_family_check(ctx, 'C06', n_quick=4, n_thorough=20, profile=prof, extra_items=lambda rng: items_for(ctx)(rng) + loop_cancel_items(ctx)(rng))
@@ -97,3 +138,4 @@ def run(ctx):
         if not rr['is_err'] and rr['output_id'] not in it['wf']['outputs']:
             ctx.add('C06', 'undeclared-output-after-cancel', rr['output_id'], rp)
     ctx.cov(cancelled_runs=ncancel, worst_return_after_cancel_ms=round(worst, 1))
+    cli_interrupt_part(ctx)
